@@ -100,8 +100,10 @@ class Traversal(object):
         return "<Trav %s %s@bb%s full=%s %s>" % (self.kind, self.body.qname, self.header, self.full, self.why)
 
 
-def traversals(prog, body):
-    """All traversals of a body: `for` loops and closure-taking consumers."""
+def traversals(prog, body, allow_try=False):
+    """All traversals of a body: `for` loops and closure-taking consumers.
+    allow_try: leaving the loop through `?` (a block that calls
+    FromResidual::from_residual) does not make the traversal partial."""
     bt = prog.bt(body)
     cfg = bt.cfg
     out = []
@@ -160,6 +162,8 @@ def traversals(prog, body):
                         if s_ not in region and not (x == nxt and s_ == tr.exit_bb):
                             if _diverges_only(cfg, body, s_):
                                 continue
+                            if allow_try and _is_try_exit(body, s_):
+                                continue
                             why.append("early exit bb%d->bb%d (%s)" % (x, s_, body.loc(x)))
                 if tr.exit_bb in region:
                     why.append("None arm stays in loop")
@@ -185,6 +189,14 @@ def traversals(prog, body):
                     tr.why = "" if tr.full else "iterator type " + cls
                     out.append(tr)
     return out
+
+
+def _is_try_exit(body, bb):
+    t = body.blocks[bb]["term"]
+    if t["k"] != "call":
+        return False
+    c = Callee(t["func"])
+    return c.name == "from_residual" and c.trait in ("std::ops::FromResidual", "core::ops::FromResidual")
 
 
 def _straight(cfg, a, b):
